@@ -1611,6 +1611,17 @@ theorem other_subscript_unquoted (v v' vm sl sl' sm : AnnE) (hv : v.visit = (som
     (AnnE.sub v sl).unstring = .sub v' sl' := by
   simp [AnnE.unstring, AnnE.visit, hv, hl, hs]
 
+/-- FULL-STRENGTH statement (false of the code today, kept visible): "a string that is a VALUE, not a
+forward reference, keeps its quotes" — the code recognises a value context only by the spelling
+`Literal` / `x.Literal` (`literal_args_verbatim` is the part that holds). With `Annotated` an opaque
+name (50) and `L` a name bound by `from typing import Literal as L` (51):
+`Annotated[a1, 'a2']` becomes `Annotated[a1, a2]` and `L['a1']` becomes `L[a1]`.
+Replayed on the real code: open finding `annotation:value-string-unquoted`. -/
+theorem value_strings_unquoted_counterexample :
+    (AnnE.sub (.atom 50) (.tup (.atom 1) (.str (.atom 2)))).unstring = .sub (.atom 50) (.tup (.atom 1) (.atom 2)) ∧
+    (AnnE.sub (.atom 51) (.str (.atom 1))).unstring = .sub (.atom 51) (.atom 1) := by
+  decide
+
 /-- **`Signature.unstring_failure_in_place`** (what the code does today, not what its docstring says):
 after a `SyntaxError` the "original node" that is returned can already be partly unquoted —
 `'a1' | 'a1 !'` comes back as `a1 | 'a1 !'` (BinOp children are assigned one by one), while
